@@ -103,6 +103,11 @@ diffs)  # the recorded patches selftest/C17/*.diff (deep chains, type-level Init
       tparam-extension-equals-ignores-bindings) pat='equality-wrong' ;;
       tparam-binds-on-empty-values) pat='equality-wrong|pos-named-differ' ;;
       implements-ignores-function-type|implements-accepts-attribute-member) pat='ifacex-instance' ;;
+      # the repaired findings, un-repaired (the reverse of the fix commit): the pre-fix tree is reported
+      prefix-86875be-constant-undef) pat='reinit-differs' ;;
+      prefix-8e14ef3-typedname-authority) pat='fault' ;;
+      prefix-de95e71-tparam-undef) pat='pos-named-differ|tparam-pos-named|inithash-roundtrip' ;;
+      prefix-fa7b8e6-deferred-arguments) pat='goobj-new-rejected|goobj-get|fault' ;;
       *) pat='' ;;
     esac
     run "mutant $(basename "$d" .diff)" 1 "$pat"
